@@ -1,95 +1,6 @@
 // C04 — the newest revision of an object wins (child module of the sliced parser/xref.rs).
 use crate::verif_known as known;
 
-#[derive(Clone, Copy, PartialEq, Debug)]
-enum Res { Missing, InUse(u64, u16), Free, Compressed(u32, u32) }
-
-/// how PdfReader::load_object_from_disk dispatches on the merged table (reader.rs: extended
-/// entry with compressed_info first, then `entries`; a free entry reads as null)
-fn resolve(t: &XRefTable, n: u32) -> Res {
-    if let Some(ext) = t.get_extended_entry(n) {
-        if let Some((s, i)) = ext.compressed_info {
-            return Res::Compressed(s, i);
-        }
-    }
-    match t.get_entry(n) {
-        Some(e) if e.in_use => Res::InUse(e.offset, e.generation),
-        Some(_) => Res::Free,
-        None => Res::Missing,
-    }
-}
-
-// @ob id=merge_chain known="older_compressed_shadowed: bool" unwind=6 stubs=fmt,vec tier=quick timeout=1800 mem=24 bound="XRefTable::parse_with_incremental_updates_options over every /Prev chain of up to 3 revisions (incl. cyclic /Prev), each revision stating objects 1 and 2 independently as absent / in use (256 offsets x 256 generations) / free / compressed (256 x 256 stream/index pairs)"
-fn merge_chain<const KF: usize>() {
-    let kind: [[u8; 2]; 3] = kani::any();
-    // offsets / generations / (stream, index) range over 256 values each, widened to the field types
-    // (the merge never computes with them: it only has to carry the right ones through)
-    let off8: [[u8; 2]; 3] = kani::any();
-    let gen8: [[u8; 2]; 3] = kani::any();
-    let ci8: [[(u8, u8); 2]; 3] = kani::any();
-    let mut off = [[0u64; 2]; 3];
-    let mut gen = [[0u16; 2]; 3];
-    let mut ci = [[(0u32, 0u32); 2]; 3];
-    let mut a = 0;
-    while a < 3 {
-        let mut b = 0;
-        while b < 2 {
-            off[a][b] = off8[a][b] as u64;
-            gen[a][b] = gen8[a][b] as u16;
-            ci[a][b] = (ci8[a][b].0 as u32, ci8[a][b].1 as u32);
-            b += 1;
-        }
-        a += 1;
-    }
-    let prev: [u8; 3] = kani::any();
-    let start: u8 = kani::any();
-    kani::assume(start < 3);
-    let mut r = 0;
-    while r < 3 {
-        kani::assume(kind[r][0] <= 3 && kind[r][1] <= 3);
-        kani::assume(prev[r] < 3 || prev[r] == 255);
-        r += 1;
-    }
-    // expected: walk the chain newest-first, first statement about each object wins
-    let mut want = [Res::Missing; 2];
-    let mut seen = [false; 3];
-    let mut cur = start;
-    let mut steps = 0;
-    let mut stale_compressed = false;
-    while steps < 3 && cur < 3 && !seen[cur as usize] {
-        seen[cur as usize] = true;
-        let c = cur as usize;
-        let mut j = 0;
-        while j < 2 {
-            if want[j] == Res::Missing && kind[c][j] != 0 {
-                want[j] = match kind[c][j] { 1 => Res::InUse(off[c][j], gen[c][j]), 2 => Res::Free, _ => Res::Compressed(ci[c][j].0, ci[c][j].1) };
-            } else if want[j] != Res::Missing && kind[c][j] == 3 && !matches!(want[j], Res::Compressed(_, _)) {
-                stale_compressed = true; // an OLDER compressed statement under a newer plain one
-            }
-            j += 1;
-        }
-        cur = prev[c];
-        steps += 1;
-    }
-    kani::assume(known::merge_chain::<KF>(stale_compressed));
-    unsafe { VERIF_KIND = kind; VERIF_OFF = off; VERIF_GEN = gen; VERIF_CI = ci; VERIF_PREV = prev; VERIF_START = start; }
-    let mut reader = BufReader::new(VerifNullFile { pos: 0 });
-    let opts = super::ParseOptions::default();
-    let merged = XRefTable::parse_with_incremental_updates_options(&mut reader, &opts);
-    assert!(merged.is_ok(), "merging a well-formed revision chain fails");
-    let t = merged.unwrap();
-    let got0 = resolve(&t, 1);
-    let got1 = resolve(&t, 2);
-    assert!(got0 == want[0], "object 1 does not resolve to its most recent definition");
-    assert!(got1 == want[1], "object 2 does not resolve to its most recent definition");
-    kani::cover!(seen[0] && seen[1] && seen[2], "three-revision chain reached");
-    kani::cover!(want[0] == Res::Free && kind[0][0] == 1, "free entry over an older in-use entry reached");
-    kani::cover!(matches!(want[1], Res::Compressed(_, _)), "compressed resolution reached");
-    std::mem::forget(t);
-    std::mem::forget(reader);
-    kani::cover!(true, "end reached");
-}
-
 // @ob id=headers_latest_wins unwind=6 stubs=fmt,vec tier=quick timeout=1200 mem=20 bound="add_headers_latest_wins on 3 scanned headers (arbitrary object numbers, generations, ascending offsets) over a table holding one arbitrary regular and one arbitrary compressed entry, check_extended arbitrary"
 fn headers_latest_wins<const KF: usize>() {
     let n: [u32; 3] = kani::any();
